@@ -1,4 +1,4 @@
-LEVELS = {'C04': 'exploration', 'C11': 'exploration', 'C13': 'exploration', 'C01': 'exploration'}
+LEVELS = {'C04': 'exploration', 'C11': 'exploration', 'C13': 'exploration', 'C01': 'exploration', 'C15': 'exploration'}
 NOT_DECIDED = {
     'C12': ['how often the main loop polls the timers (scheduling granularity) is not decided: clauses are stated "at the next call"'],
     'C09': ['route classification prefix of messages() and next-hop grouping of packed_reach_attributes: bounded only (segment contracts abstract them)', 'NLRI encoders by assumed contract here (their own contracts belong to C01/C15)'],
@@ -14,5 +14,6 @@ NOT_DECIDED = {
     'C18': ['as_path, _large_community, extended communities, labels/RD, flow and VPLS text parsers: bounded only', 'count/size limits (number of communities, attribute larger than a message): not swept here'],
     'C13': ['bounded only: no deductive obligation on the JSON assemblers or the json() fragments yet'],
     'C01': ['bounded only so far: no deductive obligation on the NLRI / attribute encoders yet'],
+    'C15': ['bounded only at the property level: corpus round trips and one-bit variants; leaf encoders shared with C01 are under contract'],
     'C06': ['the kernel delivers the byte stream faithfully (recv callee contract); interference from other asyncio tasks at await is not decided'],
 }
